@@ -24,6 +24,24 @@ Proof.
   - exact (Z.le_trans _ _ _ Hz2 B2).
 Qed.
 
+Lemma c17_expr_in (t : c17_ity) (z : Z) : c17_inrange t z = true -> c17_expr t z = C17_Val z.
+Proof. intros H. unfold c17_expr. destruct (c17_promoted t); [reflexivity | now apply c17_fit_in]. Qed.
+
+Lemma c17_store_in (t : c17_ity) (z : Z) : c17_inrange t z = true -> c17_store t z = C17_Val z.
+Proof.
+  intros H. unfold c17_store. destruct (c17_promoted t); [|reflexivity]. f_equal.
+  unfold c17_inrange, c17_imin, c17_imax in H. apply andb_prop in H. destruct H as [H1 H2].
+  apply Z.leb_le in H1. apply Z.leb_le in H2.
+  destruct (c17_signed t).
+  - destruct (Z.le_gt_cases (c17_width t) 0) as [W|W].
+    + (* degenerate width: the range is empty *)
+      assert (E : 2 ^ (c17_width t - 1) = 0) by (apply Z.pow_neg_r; lia). rewrite E in *. lia.
+    + assert (E : 2 ^ c17_width t = 2 * 2 ^ (c17_width t - 1)).
+      { replace (c17_width t) with (Z.succ (c17_width t - 1)) at 1 by lia. apply Z.pow_succ_r. lia. }
+      rewrite Z.mod_small; lia.
+  - apply Z.mod_small. lia.
+Qed.
+
 (* ------------------------------------------------------------------ factorial *)
 Lemma c17_fact_pos (n : nat) : 1 <= c17_fact n.
 Proof.
